@@ -130,6 +130,52 @@ def campaign_translate(ck: Check, n: int) -> None:
     camp.wall_s = time.time() - t0
 
 
+DOC_ALPHABET = [
+    ['"', '""', '"""', '""""', "\\", "\\\\", "\\n", "\x00", "\r", "\r\n", "\n"],
+    list("ab "),
+    ["é", "'" * 3, "{{", "#"],
+]
+
+
+def campaign_docstring(ck: Check, n: int) -> None:
+    camp = ck.campaign("esc.doc (Model.Escape.escDoc) vs model/base.py escape_docstring; the written docstring evaluates to the text")
+    t0 = time.time()
+    rng = ck.rng.fork("docstring")
+    from datamodel_code_generator.model.base import escape_docstring
+
+    cases = [gens.adversarial(rng, 7, DOC_ALPHABET) for _ in range(n)] + ['"""', '"' * 7, "\\", 'a"', "\r", "x\r"]
+    replies = ck.driver.run([f"esc.doc {hx(s)}" for s in cases])
+    for s, rep in zip(cases, replies):
+        camp.evaluations += 1
+        impl = escape_docstring(s)
+        model = unhx(rep.split(" ")[1]) if rep.startswith("ok ") else rep
+        for c in gens.classify_string(s):
+            camp.hit(c)
+        if impl != s:
+            camp.distinct.add(s)
+        if model != impl:
+            ck.disagree(camp, {"text": s}, model, impl)
+            continue
+        # the property itself, on the real function: the docstring the templates write evaluates to the text
+        lit = '"""\n    ' + impl + '\n    """'
+        src = lit + "\nX = 1\n"
+        want = ("\n    " + s + "\n    ").replace("\r\n", "\n").replace("\r", "\n")
+        try:
+            tree = ast.parse(src)
+            ok = len(tree.body) == 2 and isinstance(tree.body[0], ast.Expr) and tree.body[0].value.value == want
+        except (SyntaxError, ValueError, AttributeError):
+            ok = False
+        if not ok:
+            ck.fail(
+                {"oracle": "docstring_roundtrip", "site": "docstring", "trigger": trigger_of("class_description", s), "rendering": "escape_docstring"},
+                {"text": s},
+                f"docstring written for {s!r} does not evaluate to it or changes the module structure: {src!r}",
+            )
+        elif len(camp.samples) < 2 and impl != s:
+            camp.samples.append({"text": s, "escaped": impl})
+    camp.wall_s = time.time() - t0
+
+
 # ---------------------------------------------------------------- end-to-end planted-string oracle
 def build_doc(slot: str, s: str) -> dict:
     n = {k: gens.neutral(i) for i, k in enumerate(SLOTS)}
@@ -345,6 +391,7 @@ def run(ck: Check) -> None:
     ]
     campaign_lex(ck, 3000 if quick else 40000)
     campaign_translate(ck, 600 if quick else 6000)
+    campaign_docstring(ck, 800 if quick else 10000)
     campaign_e2e(ck, 400 if quick else 6000)
     ck.search_hooks.append(search_bad_table_char)
     known_findings(ck)
